@@ -337,6 +337,17 @@ def run(ck):
             ck.ob("DEFUSE", f.path, "entry-charge-counts-declared-locals", ok,
                   "invoke_after(num_locals - number of parameters)" if ok else
                   "the entry charge is not computed from num_locals - parameters (sources: %s): locals declared in groups are undercharged" % sorted(set(a[1] for a in o if a[0] == "field")), f.loc(bi))
+    # call costs are looked up in the ORIGINAL index space: the per-function transformation runs before the import and type
+    # lists are extended by the metering imports (afterwards every function index is shifted by NUM_ADDED_FUNCTIONS, and a
+    # lookup with the unshifted index prices `call k` with the signature of function k - 1)
+    f = getfn(ck, "sc", W, M + "<impl concordium_wasm::types::Module>::inject_metering")
+    if f:
+        calls_ = f.calls(r"metering_transformation::inject_accounting$")
+        wr = [bi for bi in f.reachable() for st in f.stmts(bi) if "lhs" in st and st["lhs"][1] and re.search(r":(imports|types)$", str(st["lhs"][1][-1]))]
+        late = [cb for (cb, _) in calls_ if any(cb in f.reach_from(f.succ(wb)) for wb in wr)]
+        ck.ob("DOM", f.path, "functions-transformed-before-imports-are-shifted", len(calls_) >= 1 and len(wr) >= 2 and not late,
+              "inject_accounting runs for all functions before the %d writes that extend the import/type lists" % len(wr) if calls_ and not late else
+              "inject_accounting is reachable after the import/type lists were extended: call costs are looked up in a shifted index space", f.loc(late[0]) if late else f.loc())
     compiled_charge_rules(ck, c)
 
 
